@@ -1127,3 +1127,32 @@ Proof.
     repeat constructor; eexists; (split; [reflexivity|]); repeat constructor; simpl; lia.
   - vm_compute. repeat split; reflexivity.
 Qed.
+
+(* the first sentence of the property, literally: assume any conjunction from top *)
+Theorem zone_conjunction_exact n cs : Forall (z_ok n) cs ->
+  let z := z_assume n cs (z_top n) in
+  (z_is_bot z = true <-> forall s, ~ Forall (fun c => sat c s) cs) /\
+  (forall c, z_ok n c ->
+     (z_entails c z = true <-> forall s, Forall (fun c => sat c s) cs -> sat c s)).
+Proof.
+  intros F z. destruct (z_assume_spec n cs (z_top n) F (z_top_wf n)) as [W G]. fold z in W, G.
+  split.
+  - rewrite (zone_bottom_exact n z W). split.
+    + intros H s X. apply (H s). apply G. split; [apply z_top_gamma|auto].
+    + intros H s X. apply G in X. apply (H s). tauto.
+  - intros c Oc. rewrite (z_entails_exact n c z W Oc). split; intros H s X.
+    + apply H. apply G. split; [apply z_top_gamma|auto].
+    + apply H. apply G in X. tauto.
+Qed.
+
+Theorem zone_history_invariant n : (0 < n)%nat -> forall h rs,
+  Forall (zwf n) rs ->
+  Forall (gop_ok (z_ok n) (za_ok n) (fun v => (node v < n)%nat)) h ->
+  Forall (zwf n) (grun (zone_dom n) rs h).
+Proof. intros H. exact (grun_wf (zone_dom n) (zwf n) gamma _ _ _ (zone_exact_dom n H)). Qed.
+
+Theorem zone_step_exact n : (0 < n)%nat -> forall rs o,
+  Forall (zwf n) rs -> gop_ok (z_ok n) (za_ok n) (fun v => (node v < n)%nat) o ->
+  (gtarget o < length rs)%nat ->
+  step_spec (zone_dom n) (zwf n) gamma rs o (gget (zone_dom n) (gstep (zone_dom n) rs o) (gtarget o)).
+Proof. intros H. exact (gstep_exact (zone_dom n) (zwf n) gamma _ _ _ (zone_exact_dom n H)). Qed.
